@@ -243,6 +243,13 @@ class C13(Campaign):
             sc["params"]["masses_scaling_power"] = gen.rfloat(rnd, 0.0, 1.0, 3)
         elif r < 0.4:
             sc["params"]["masses_scaling_power"] = [[gen.rfloat(rnd, 0.0, 1.0, 3) for _ in range(3)] for _ in range(n)]
+        if rnd.random() < 0.25:
+            # masses handed to the driver through update_masses (per atom or per coordinate): they, not the atoms'
+            # tabulated masses, define the scaling (m_min/m)^p
+            if rnd.random() < 0.5:
+                sc["params"]["update_masses"] = [gen.logu(rnd, 0.5, 300.0) for _ in range(n)]
+            else:
+                sc["params"]["update_masses"] = [[gen.logu(rnd, 0.5, 300.0) for _ in range(3)] for _ in range(n)]
         if not density and rnd.random() < 0.15:
             sc["driver"] = "AdaptiveForceBias"
             sc["params"].update({"min_delta": gen.logu(rnd, 1e-3, 0.05), "max_delta": gen.logu(rnd, 0.06, 0.5),
